@@ -269,11 +269,37 @@ def freed_once_sites(fx, files):
     free of a given handle after the call must sit on the `handle != result` edge of a comparison with the result:
     otherwise the same box is freed twice (or the result is read after it was freed)."""
     from c09 import ancestors, edge_dominates
+    # helpers that free their first argument unless it equals their second (`free_handle_unless(handle, keep)`)
+    unless = set()
+    for g in fx.fns.values():
+        if g.derived or g.closure or not g.file.startswith(files) or g.argc != 2:
+            continue
+        fr = [(bi, t) for bi, t in g.calls() if t[1].get("d", "").endswith("Box::<T>::from_raw") and t[2] and t[2][0][0] in ("c", "m") and 1 in ancestors(g, t[2][0][1][0])]
+        if not fr:
+            continue
+        good = True
+        for bi, t in fr:
+            hit = False
+            for b2, bl in enumerate(g.blocks):
+                for s_ in bl["s"]:
+                    if s_[0] == "a" and s_[2][0] == "bin" and s_[2][1] in ("Ne", "Eq") and not s_[1][1]:
+                        sides = [o[1][0] for o in s_[2][2:4] if o[0] in ("c", "m")]
+                        if len(sides) == 2 and {1, 2} <= (ancestors(g, sides[0]) | ancestors(g, sides[1])):
+                            tt = bl["t"]
+                            if tt[0] == "switch":
+                                zero = [b for v, b in tt[2] if v == "0"]
+                                ne_edge = tt[3] if s_[2][1] == "Ne" else (zero[0] if zero else None)
+                                if edge_dominates(g, ne_edge, bi):
+                                    hit = True
+            good = good and hit
+        if good:
+            unless.add(g.path)
     for f in sorted(fx.fns.values(), key=lambda g: g.path):
         if not f.file.startswith(files) or f.derived:
             continue
         frees = [(bi, t) for bi, t in f.calls() if t[1].get("d", "").endswith("Box::<T>::from_raw") and t[2] and t[2][0][0] in ("c", "m")]
-        if len(frees) < 2:
+        via = [(bi, t) for bi, t in f.calls() if t[1].get("d") in unless and len(t[2]) == 2 and t[2][0][0] in ("c", "m") and t[2][1][0] in ("c", "m")]
+        if len(frees) + len(via) < 2:
             continue
         for ib, it in f.calls():
             if "ptr" not in it[1] or it[3][1]:
@@ -296,8 +322,17 @@ def freed_once_sites(fx, files):
                     taken.append((bi, t))
                 elif anc & given:
                     handles.append((bi, t, anc))
-            if not taken or not handles:
+            # frees delegated to an `unless` helper: guarded when the value to keep is the result
+            vias = []
+            for bi, t in via:
+                if bi in after and bi != ib and f.locals[t[2][0][1][0]] == rty:
+                    anc = ancestors(f, t[2][0][1][0])
+                    if res not in anc and (anc & given):
+                        vias.append((f, t, res in ancestors(f, t[2][1][1][0])))
+            if not taken or not (handles or vias):
                 continue
+            for fv, tv, okv in vias:
+                yield fv, tv, taken, okv
             # comparisons of something with the result
             cmps = []
             for bi, bl in enumerate(f.blocks):
